@@ -122,20 +122,20 @@ fn long_case_strategy() -> impl Strategy<Value = Case> {
 }
 
 pub fn run(ctx: &Ctx, rep: &mut Report) {
-    let cases = ctx.share(ctx.tier.pick(120_000, 6_000_000));
+    let cases = ctx.share(ctx.tier.pick(240_000, 6_000_000));
     engine::drive(ctx, rep, "random", case_strategy(), cases, check_case);
-    let cases = ctx.share(ctx.tier.pick(12_000, 800_000));
+    let cases = ctx.share(ctx.tier.pick(24_000, 800_000));
     engine::drive(ctx, rep, "long-streams", long_case_strategy(), cases, check_case);
     // The same short streams against an arena whose current chunk is a maximum-size one
     // with 0..4 bytes (or a block or so) left.
-    let cases = ctx.share(ctx.tier.pick(12_000, 1_200_000));
+    let cases = ctx.share(ctx.tier.pick(24_000, 1_200_000));
     let big = (case_strategy(), prop_oneof![3 => 2u8..7, 1 => 7u8..40]).prop_map(|(mut c, prep)| {
         c.delivery.big_chunk = true;
         c.delivery.arena_prep = prep;
         c
     });
     engine::drive(ctx, rep, "max-size-chunk", big, cases, check_case);
-    let cases = ctx.share(ctx.tier.pick(1_600, 100_000));
+    let cases = ctx.share(ctx.tier.pick(3_200, 100_000));
     let large = (stream_in::large_stream_spec(), stream_in::delivery(), stream_in::large_block()).prop_map(|(stream, mut delivery, block)| {
         delivery.block = block;
         Case { stream, delivery }
